@@ -107,6 +107,7 @@ pub fn build_root(rng: &mut Rng, version: RootVersion, total: usize, named: &str
     let nb_unnamed = if unnamed_target == 0 { 0 } else { rng.urange(1, 2).min(unnamed_target) };
     let mut lbits = LOCALE_BITS.to_vec();
     rng.shuffle(&mut lbits);
+    let hash_array_for_unnamed = rng.chance(1, 4);
     let mut blocks: Vec<(u32, u64)> = Vec::new();
     for b in 0..nb_named + nb_unnamed {
         let take = rng.urange(1, 3);
@@ -123,7 +124,10 @@ pub fn build_root(rng: &mut Rng, version: RootVersion, total: usize, named: &str
         if version == RootVersion::V4 && rng.bool() {
             content |= 1u64 << rng.urange(32, 39);
         }
-        if b >= nb_named && !v1 {
+        // blocks of files that were added without a path normally carry NO_NAME_HASH; in one build out of four they do
+        // not (the caller chooses the content flags): the block then has a name-hash array although none of its files
+        // has a name, also when the whole manifest has no named file
+        if b >= nb_named && !v1 && !hash_array_for_unnamed {
             content |= ContentFlags::NO_NAME_HASH;
         }
         blocks.push((loc, content));
@@ -304,6 +308,19 @@ fn verify_root(ctx: &Ctx, case: &Case, t: &mut Tally, rng: &mut Rng, parsed: &Ro
             scan.push(Rec { fdid: r.file_data_id.get(), ckey: *r.content_key.as_bytes(), hash: r.name_hash, locale: b.locale_flags().value(), content: b.content_flags().value });
         }
     }
+    // a block without NO_NAME_HASH has a hash slot for every record: for a file that was added WITHOUT a path the value
+    // of that slot is not determined by anything the caller passed, so it is left open (compared as "no name")
+    let scan_raw = scan.clone();
+    let open: std::collections::BTreeSet<(u32, [u8; 16], u32, u64)> = recs.iter().filter(|r| r.hash.is_none() && r.content & ContentFlags::NO_NAME_HASH == 0).map(|r| (r.fdid, r.ckey, r.locale, r.content)).collect();
+    if !open.is_empty() {
+        t.o("root.unnamed_records_in_blocks_with_a_name_hash_array", open.len() as u64);
+        for r in &mut scan {
+            if r.hash.is_some() && open.contains(&(r.fdid, r.ckey, r.locale, r.content)) {
+                r.hash = None;
+            }
+        }
+    }
+    let named_by_caller = recs.iter().filter(|r| r.hash.is_some()).count();
     let mut a = scan.clone();
     a.sort();
     let mut m = recs.to_vec();
@@ -313,7 +330,25 @@ fn verify_root(ctx: &Ctx, case: &Case, t: &mut Tally, rng: &mut Rng, parsed: &Ro
         viol(ctx, case, &misparse_sig(ph, class), "records of the parsed root manifest differ from what was inserted", json!({"parsed_version": format!("{:?}", parsed.version), "parsed_records": a.len(), "first_missing": first.map(|r| json!({"fdid": r.fdid, "ckey": hex::encode(r.ckey), "hash": r.hash, "locale": r.locale, "content": r.content})), "info": info}));
         return false;
     }
-    // level 2
+    // level 2 — with the open hash slots filled in as the manifest has them: whatever value such a slot holds, every
+    // lookup flavour must then treat it like any other name hash of the manifest (consistency of the lookups with the
+    // linear scan), while the header's count of named files stays what the caller named
+    let adopted: Vec<Rec>;
+    let recs: &[Rec] = if open.is_empty() {
+        recs
+    } else {
+        adopted = recs
+            .iter()
+            .map(|r| {
+                let mut r = r.clone();
+                if r.hash.is_none() && open.contains(&(r.fdid, r.ckey, r.locale, r.content)) {
+                    r.hash = scan_raw.iter().find(|x| (x.fdid, x.ckey, x.locale, x.content) == (r.fdid, r.ckey, r.locale, r.content)).and_then(|x| x.hash);
+                }
+                r
+            })
+            .collect();
+        &adopted
+    };
     let mut by_fdid: BTreeMap<u32, Vec<&Rec>> = BTreeMap::new();
     let mut by_hash: BTreeMap<u64, Vec<&Rec>> = BTreeMap::new();
     for r in recs {
@@ -424,12 +459,15 @@ fn verify_root(ctx: &Ctx, case: &Case, t: &mut Tally, rng: &mut Rng, parsed: &Ro
         viol(ctx, case, &format!("C03|root|{ph}lookup_stats|!=inserted|{class}"), "lookup tables hold a different number of ids / name hashes than inserted", json!({"fdid_count": nf, "name_count": nn, "expected": [by_fdid.len(), by_hash.len()], "info": info}));
     }
     // count accessors and the record iterator (a linear-scan API of the manifest itself)
-    let named = recs.iter().filter(|r| r.hash.is_some()).count();
+    let named = named_by_caller;
     let mut it: Vec<(u32, [u8; 16], Option<u64>)> = parsed.iter_records().map(|r| (r.file_data_id.get(), *r.content_key.as_bytes(), r.name_hash)).collect();
     it.sort_unstable();
     let mut want: Vec<(u32, [u8; 16], Option<u64>)> = recs.iter().map(|r| (r.fdid, r.ckey, r.hash)).collect();
     want.sort_unstable();
-    if parsed.total_files() as usize != n_records || parsed.named_files() as usize != named || it != want {
+    // with open hash slots "how many files are named" has two defensible answers (those the caller named / those that
+    // occupy a hash slot) and rebuilds move from one to the other: not compared then
+    let named_ok = !open.is_empty() || parsed.named_files() as usize == named;
+    if parsed.total_files() as usize != n_records || !named_ok || it != want {
         viol(ctx, case, &format!("C03|root|{ph}total_files/named_files/iter_records|!=inserted|{class}"), "file counts or the record iterator of the parsed manifest differ from the inserted records", json!({"total_files": parsed.total_files(), "named_files": parsed.named_files(), "iter_records": it.len(), "expected": [n_records, named], "info": info}));
     }
     t.o("root.lookups", lookups);
